@@ -157,37 +157,40 @@ func (c *child) canonFlushLast() {
 		}
 		c.count("canonical_cases|flushlast", 1)
 	}
-	// variant 3: the copy's data lives on the GPU that has the long write-back
-	// to do: the read must wait for it (the command processor holds copy
-	// requests back while cache flushes are outstanding)
-	th.fq = qOn(ng)
-	th.kernel(m, B.Off, B.Size/4, kern.OpAdd, 0x01000001, false)
-	th.drainAll()
-	th.fq = -1
-	th.d2h(m, B.Off+B.Size-2*pageSize-20, 2*pageSize+20, typeByName("[]byte"), true, "d2h", -1)
-	th.fq = (qOn(ng) + 1) % len(m.queues)
-	th.kernel(m, B.Off, B.Size/4, kern.OpXor, 0x00330033, false)
-	th.h2d(m, B.Off+B.Size-pageSize-9, 50, typeByName("[]byte"), false, "h2d")
-	th.d2h(m, B.Off+B.Size-3*pageSize, 3*pageSize, typeByName("[]uint32"), false, "d2h", -1)
-	th.drainAll()
-	c.count("canonical_cases|flushlast-same-gpu", 1)
-	// variant 2: the kernel is still running on GPU ng while a chain of small
-	// copies to GPU 1 is processed (each one flushes GPU ng in mid-kernel)
-	th.fq = qOn(ng)
-	th.kernel(m, B.Off, B.Size/4, kern.OpXor, 0x55, false)
-	th.fq = qOn(1)
-	if qOn(1) == qOn(ng) {
+	// the 3-GPU instance repeats only the flush-reply-last rounds (wall time)
+	if ng < 3 {
+		// variant 3: the copy's data lives on the GPU that has the long write-back
+		// to do: the read must wait for it (the command processor holds copy
+		// requests back while cache flushes are outstanding)
+		th.fq = qOn(ng)
+		th.kernel(m, B.Off, B.Size/4, kern.OpAdd, 0x01000001, false)
+		th.drainAll()
+		th.fq = -1
+		th.d2h(m, B.Off+B.Size-2*pageSize-20, 2*pageSize+20, typeByName("[]byte"), true, "d2h", -1)
 		th.fq = (qOn(ng) + 1) % len(m.queues)
-	}
-	for k := 0; k < 6; k++ {
-		if k%2 == 0 {
-			th.d2h(m, A.Off, 128, u32, false, "d2h", -1)
-		} else {
-			th.h2d(m, A.Off+64, 32, u32, false, "h2d")
+		th.kernel(m, B.Off, B.Size/4, kern.OpXor, 0x00330033, false)
+		th.h2d(m, B.Off+B.Size-pageSize-9, 50, typeByName("[]byte"), false, "h2d")
+		th.d2h(m, B.Off+B.Size-3*pageSize, 3*pageSize, typeByName("[]uint32"), false, "d2h", -1)
+		th.drainAll()
+		c.count("canonical_cases|flushlast-same-gpu", 1)
+		// variant 2: the kernel is still running on GPU ng while a chain of small
+		// copies to GPU 1 is processed (each one flushes GPU ng in mid-kernel)
+		th.fq = qOn(ng)
+		th.kernel(m, B.Off, B.Size/4, kern.OpXor, 0x55, false)
+		th.fq = qOn(1)
+		if qOn(1) == qOn(ng) {
+			th.fq = (qOn(ng) + 1) % len(m.queues)
 		}
+		for k := 0; k < 6; k++ {
+			if k%2 == 0 {
+				th.d2h(m, A.Off, 128, u32, false, "d2h", -1)
+			} else {
+				th.h2d(m, A.Off+64, 32, u32, false, "h2d")
+			}
+		}
+		th.drainAll()
+		c.count("canonical_cases|flushlast", 1)
 	}
-	th.drainAll()
-	c.count("canonical_cases|flushlast", 1)
 	th.fq = noForce
 	th.verify(m, 0, len(m.shadow), 0, -1)
 	th.drainAll()
@@ -370,34 +373,60 @@ var flushLastPages = func() int {
 	return 128
 }()
 
+var reorderPasses = func() int {
+	if v, err := strconv.Atoi(os.Getenv("C11_ROPASSES")); err == nil && v > 0 {
+		return v
+	}
+	return 4
+}()
+
+var reorderChain = func() int {
+	if v, err := strconv.Atoi(os.Getenv("C11_ROCHAIN")); err == nil && v > 0 {
+		return v
+	}
+	return 6
+}()
+
+var reorderKernels = func() int {
+	if v, err := strconv.Atoi(os.Getenv("C11_ROKERNELS")); err == nil && v > 0 {
+		return v
+	}
+	return 3
+}()
+
 var reorderPages = func() int {
 	if v, err := strconv.Atoi(os.Getenv("C11_ROPAGES")); err == nil && v > 0 {
 		return v
 	}
-	return 256
+	return 64
 }()
 
-// canonReorder: multi-page copies (16-64 KiB, position-dependent data) through
-// the DMA engine while a long memory-bound kernel of ANOTHER context runs on
-// another queue and keeps the DRAM banks busy with L2 traffic. The per-page
-// pieces of a copy go to different banks (4 KiB interleaving), the banks answer
-// at different speeds, so memory responses reach the DMA engine out of issue
-// order (counter dma_responses_out_of_issue_order; the copied buffers are not
-// touched by the kernel, and their context never launched a kernel, so no
-// flush quiets the traffic).
+// canonReorder: multi-page copies (16-256 KiB, position-dependent data)
+// through the DMA engine of GPU 1 while memory-bound kernels of ANOTHER
+// context run on another queue. Each copy is split into per-page requests
+// (up to four in the DMA engine at a time), each request into 64-byte
+// transactions spread over the 16 DRAM banks (128-byte interleaving on
+// r9nano). The kernels' L2 misses and write-backs make single banks answer a
+// few cycles late, so memory responses reach the DMA engine out of issue order
+// (counter dma_responses_out_of_issue_order; ..._across_copy_requests counts
+// the ones that overtake a transaction of an earlier per-page request). The
+// copied buffers are not touched by the kernels and their context never
+// launches one, so no flush of its own quiets the traffic.
 func (c *child) canonReorder() {
 	th := c.canonThread()
 	ng := c.cfg.NGPU
-	// context X: the copied buffers (on the GPU that runs the kernel; with 2 GPUs
-	// one buffer is distributed over both)
+	// context X: the copied buffers, never touched by a kernel (X launches
+	// none, so its copies are not preceded by flushes of their own). With two
+	// GPUs the second buffer is distributed over both.
 	kindC := "plain"
 	if ng > 1 {
 		kindC = "dist"
 	}
-	lsX := layoutSpec{Sizes: []int{64, 16 * pageSize, 64, 16 * pageSize, 64}, Kinds: []string{"plain", "plain", "plain", kindC, "plain"}, GPUs: []int{1, 1, 1, 1, 1}, NQ: 2}
+	const cp = 64 // pages per copied buffer
+	lsX := layoutSpec{Sizes: []int{64, cp * pageSize, 64, cp * pageSize, 64}, Kinds: []string{"plain", "plain", "plain", kindC, "plain"}, GPUs: []int{1, 1, 1, 1, 1}, NQ: 4}
 	x := c.buildCtx(lsX, th.r, nil)
-	// context Y: the kernel's buffer
-	lsY := layoutSpec{Sizes: []int{reorderPages * pageSize}, Kinds: []string{"plain"}, GPUs: []int{1}, NQ: 2}
+	// context Y: the kernel's buffer on GPU 1
+	lsY := layoutSpec{Sizes: []int{reorderPages * pageSize, 4 * pageSize}, Kinds: []string{"plain", "plain"}, GPUs: []int{1, 1}, NQ: 2}
 	y := c.buildCtx(lsY, th.r, nil)
 	th.ms = []*ctxModel{x, y}
 	th.initArena(x)
@@ -412,17 +441,53 @@ func (c *child) canonReorder() {
 	}
 	bt, u32, u64 := typeByName("[]byte"), typeByName("[]uint32"), typeByName("[]uint64")
 	C1, C2 := x.bufs[1], x.bufs[3]
+	small := y.bufs[1]
+	_ = small
 	for round := 0; round < 2; round++ {
+		// Y's queue: a chain of memory-bound kernels over the same pages. The
+		// small copy of Y behind each kernel (Y is dirty) makes GPU 1 write back
+		// and invalidate its caches, so every kernel misses in L2 again.
 		th.fq = qOnGPU1(y)
-		th.kernel(y, 0, reorderPages*pageSize/4, kern.Op(round%3), uint32(0x9E3779B1+2*round), false)
-		// chain of copies on one queue of X while the kernel runs
-		th.fq = 0
-		th.d2h(x, C1.Off, 16*pageSize, u64, false, "d2h", -1)
-		th.h2d(x, C2.Off+pageSize-24, 8*pageSize+100, bt, false, "h2d")
-		th.d2h(x, C2.Off+3, 12*pageSize, bt, false, "d2h", -1)
-		th.h2d(x, C1.Off+4, 4*pageSize, u32, false, "h2d")
-		th.d2h(x, C1.Off-32, 16*pageSize+64+32, bt, false, "d2h", -1) // spans the guards around C1
-		th.d2h(x, C2.Off, 16*pageSize, u32, false, "d2h", -1)
+		for k := 0; k < reorderKernels; k++ {
+			th.kernelSweep(y, 0, reorderPages*pageSize/4/reorderPasses, reorderPasses, kern.Op(k%3), uint32(0x9E3779B1+2*k))
+			th.h2d(y, small.Off+64*k, 64, bt, false, "h2d")
+		}
+		// X: two queues stream 16-256 KiB copies through GPU 1's DMA engine for
+		// as long as Y's kernels run; two more queues issue small
+		// page-straddling copies. All ranges are disjoint across queues.
+		for k := 0; k < reorderChain; k++ {
+			th.fq = 0
+			switch k % 4 {
+			case 0:
+				th.d2h(x, C1.Off, cp*pageSize, u64, false, "d2h", -1)
+			case 1:
+				th.h2d(x, C1.Off+pageSize-24, 16*pageSize+100, bt, false, "h2d")
+			case 2:
+				th.d2h(x, C1.Off-32, cp*pageSize+64+32, bt, false, "d2h", -1) // spans the guards around C1
+			default:
+				th.d2h(x, C1.Off+5, 32*pageSize-5, bt, false, "d2h", -1)
+			}
+			th.fq = 1
+			switch k % 3 {
+			case 0:
+				th.d2h(x, C2.Off+3, 32*pageSize-3, bt, false, "d2h", -1)
+			case 1:
+				th.h2d(x, C2.Off+4, 4*pageSize, u32, false, "h2d")
+			default:
+				th.d2h(x, C2.Off, 40*pageSize, u32, false, "d2h", -1)
+			}
+			for q := 2; q < 4; q++ {
+				th.fq = q
+				for j := 0; j < 2; j++ {
+					off := C2.Off + (44+8*(q-2)+2*((k+j)%4))*pageSize - 100 - 7*j
+					if (j+q+k)%2 == 0 {
+						th.d2h(x, off, 260+j, bt, false, "d2h", -1)
+					} else {
+						th.h2d(x, off, 200+j, bt, false, "h2d")
+					}
+				}
+			}
+		}
 		th.drainAll()
 		c.count("canonical_cases|reorder", 1)
 	}
